@@ -25,16 +25,16 @@ ASSUMPTIONS = [
 ]
 
 T.ALPHABETS['c10'] = {
-    'concepts': [T.ABSENT, 'x', 'a', '"string"', '_p', '7', '\u00dcnic', 'x~1', T.NOCONCEPT],
+    'concepts': [T.ABSENT, 'x', 'a', 'b', '"string"', '_p', '7', '\u00dcnic', 'x~1', T.NOCONCEPT],
     'roles': [':r', ':r-of~1'],
     'atoms': ['k', 'x', '"a"', 'v1'],
-    'refs': 'all+aligned',
+    'refs': 'all+alignedself',
 }
 T.ALPHABETS['c10m'] = {
-    'concepts': [T.ABSENT, 'x', 'a', '"string"'],
+    'concepts': [T.ABSENT, 'x', 'b', '"string"'],
     'roles': [':r', ':r-of~1'],
     'atoms': ['x', 'v1'],
-    'refs': 'all+aligned0',
+    'refs': 'all+alignedself',
 }
 T.ALPHABETS['c10n'] = {
     'concepts': [T.ABSENT, 'x'],
@@ -133,10 +133,27 @@ def _constants(node, variables, out):
     return out
 
 
+# the family names its nodes a, b, c, ... in depth-first order; these renamings add trees whose
+# existing names are out of order or collide with names the formats generate
+VARIANTS = [None, {'a': 'b', 'b': 'a'}, {'a': 'x2', 'b': 'x', 'c': 'a2', 'd': 'v0'}]
+
+
 def check(case, ctx):
+    t0 = T.totuple(case['t'])
+    for ren in VARIANTS:
+        t = t0 if ren is None else ref_apply(t0, ren)
+        if ren is not None and t == t0:
+            continue
+        n = len(ctx.fails)
+        _check_one(t, ctx)
+        if len(ctx.fails) > n:
+            ctx.fails[-1]['case'] = {'t': t}
+            return
+
+
+def _check_one(t, ctx):
     from penman import layout, surface
     from penman.tree import Tree
-    t = T.totuple(case['t'])
     pm, rm = M.get('DEFAULT')
     variables = set(RI.tree_vars(t))
     nontrivial = len(variables) >= 2 or any(RI.is_atomic(x) and isinstance(x, str) and RI.split_atom(x)[0] in variables for _, x in t[1])
